@@ -21,9 +21,18 @@ func (s *SCC) Has(f *ssa.Function) bool { return s.in[f] }
 
 // Name is the stable key of the component.
 func (s *SCC) Name() string {
+	// named by its exported members when it has any: private helpers that a refactoring moves into or out of the
+	// cycle do not rename the component
 	var ns []string
 	for _, f := range s.Funcs {
-		ns = append(ns, FuncName(f))
+		if f.Object() != nil && f.Object().Exported() {
+			ns = append(ns, FuncName(f))
+		}
+	}
+	if len(ns) == 0 {
+		for _, f := range s.Funcs {
+			ns = append(ns, FuncName(f))
+		}
 	}
 	sort.Strings(ns)
 	if len(ns) > 4 {
